@@ -37,7 +37,7 @@ REQUIRED = {"v1.meaning": {"quick": 3000, "thorough": 50000}, "v1.autodetect_mea
             "history.rejected_again": {"quick": 300, "thorough": 5000},
             "history.config_after_other_protocol": {"quick": 200, "thorough": 5000},
             "v1.config_file_meaning": {"quick": 80, "thorough": 2000}, "v1.config_kwarg_meaning": {"quick": 200, "thorough": 4000}}
-REQUIRED_SEEN = {"group_shape": ["same_tag_with_both_polarities"], "tag_name_class": ["contains_operator_word", "contains_negation_character", "is_a_constant_word"],
+REQUIRED_SEEN = {"group_shape": ["same_tag_with_both_polarities"], "tag_name_class": ["contains_operator_word", "contains_negation_character", "is_a_constant_word", "name_equals_value"],
                  "config_kwarg_form": ["string:1_groups", "string:2_groups", "list:1_groups", "list:2_groups", "tuple:2_groups"],
                  "config_files_with_tags": ["home_and_project", "project_only"], "config_file_tags_shape": ["toml", "ini", "toml+command_line", "ini+command_line"]}
 EXHAUSTIVE = True
@@ -99,6 +99,7 @@ def render(groups, decor):
 
 RENAME = {"a": "android", "b": "order", "c": "notify", "d": "sandbox"}      # names that CONTAIN the v2 operator words
 RENAME_CONST = {"a": "true", "b": "false", "c": "never", "d": "none"}       # names that are words of the expression MODEL (constants)
+RENAME_VALUE = {"a": "os=linux", "b": "os=darwin", "c": "k=v,w".replace(",w", ""), "d": "use.with_n=3"}     # name=value tags (active-tag style)
 RENAME_PUNCT = {"a": "rev~1", "b": "x-y", "c": "c~", "d": "d-~e"}           # names that CONTAIN (not: start with) the negation characters
 _REN = re.compile(r"(?<![A-Za-z])([abcd])(?![A-Za-z])")
 
@@ -412,6 +413,11 @@ def run(spec, mon):
             dec = decor_random(rng)
             check_cnf(lab, mon, groups, render(groups, lambda gi, ai: dict(dec(gi, ai), limit=None)), rename=RENAME_CONST)
             mon.seen("tag_name_class", "is_a_constant_word")
+        if rng.random() < 0.3:
+            groups = [rng.choice(gv4) for _ in range(rng.choice([1, 1, 2]))]
+            dec = decor_random(rng)
+            check_cnf(lab, mon, groups, render(groups, lambda gi, ai: dict(dec(gi, ai), limit=None)), rename=RENAME_VALUE)
+            mon.seen("tag_name_class", "name_equals_value")
         if rng.random() < 0.5:
             # literals drawn WITH replacement: the same tag twice in one or-group, also with opposite polarity (@a,-@a is
             # always true), and the same tag in several groups
